@@ -8,7 +8,9 @@ correspondence   : real Screen / BPM objects (float32, small dyadic numbers => e
                    ParameterBeam: image shape, arg-max pixel, read beam, returned charge.  BPM (float64): reading to round-off.
 oracle           : the property itself on the implementation alone: one-hot images for single particles placed in a chosen
                    pixel of the misaligned screen, histogram sum = surviving charge inside, shapes, ParameterBeam vs ParticleBeam
-                   peak pixel, vectorised KDE vs per-sample, BPM reading vs exact centroid, pass-through / blocking.
+                   peak pixel, vectorised KDE vs per-sample, KDE peak pixel with binning 2/4 for a particle in the upper/right part of
+                   a binned pixel (== containing pixel == histogram pixel), BPM reading vs exact centroid, pass-through / blocking incl.
+                   direct screen.track(beam) / screen(beam) calls for all (is_active, is_blocking) combinations and both beam types.
 known findings   : F14 (y-misalignment subtracted from px), F15 (ParameterBeam image transposed, sampled at pixel edges).
 """
 import json
@@ -389,6 +391,99 @@ def oracle_kde_peak(sp, p):
     return []
 
 
+KDE_SHAPES = [(8, 8), (10, 12), (6, 4), (12, 8), (16, 4)]      # every binned pixel width is dyadic for binning 2 and 4
+
+
+def gen_kde_binned(rng, b, upper):
+    """a screen with binning b in {2, 4} and one particle at a chosen fraction (fx, fy) of a chosen binned pixel of the misaligned
+    screen; upper: at least one of fx, fy in the upper/right part (>= 13/16) of the pixel, where a grid of KDE centres that is off
+    by part of a binned pixel puts the peak into the neighbouring pixel."""
+    sp = gen_screen(rng, False)
+    sp["W"], sp["H"] = rng.choice(KDE_SHAPES)
+    sp["b"] = b
+    ex, ey = edges(sp)
+    nx, ny = nb(sp)
+    hi, lo = [Fr(13, 16), Fr(7, 8), Fr(15, 16)], [Fr(1, 16), Fr(1, 8), Fr(1, 4), Fr(3, 8), Fr(5, 8)]
+    if upper:
+        fx, fy = rng.choice([(rng.choice(hi), rng.choice(lo + hi)), (rng.choice(lo + hi), rng.choice(hi)), (rng.choice(hi), rng.choice(hi))])
+    else:
+        fx, fy = rng.choice(lo), rng.choice(lo)
+    col, rfb = rng.randrange(0, max(1, nx - 1)), rng.randrange(0, max(1, ny - 1))     # a neighbour to the right / above exists
+    x = ex[col] + fx * (ex[col + 1] - ex[col]) + Fr(sp["dx"])
+    y = ey[rfb] + fy * (ey[rfb + 1] - ey[rfb]) + Fr(sp["dy"])
+    p = dict(x=float(x), y=float(y), px=0.0, py=0.0, q=rng.randrange(1, 9) / 4, s=1.0)
+    if not (Fr(p["x"]) == x and Fr(p["y"]) == y and intended_pixel(sp, p["x"], p["y"]) == (ny - 1 - rfb, col)):
+        return None                      # (not reachable with dyadic pixel sizes: the position would not be exact)
+    return sp, p, (float(fx), float(fy))
+
+
+def oracle_kde_binned(sp, p):
+    """binning > 1: the KDE peak pixel of a single particle (a narrow beam) == the pixel of the misaligned screen containing
+    (x - dx, y - dy) == the pixel the histogram method puts it in."""
+    bad = oracle_kde_peak(sp, p)
+    scr = mk_screen(sp)
+    scr.track(mk_pbeam([p]))
+    hist = argmax2(scr.reading)
+    bw = 0.5 * max(sp["px"], sp["py"]) * sp["b"]
+    sk = mk_screen(sp, method="kde", bw=bw)
+    sk.track(mk_pbeam([p]))
+    kde = argmax2(sk.reading)
+    if hist is not None and kde is not None and hist != kde and not bad:
+        f14 = sp["dy"] != 0 and hist == intended_pixel(dict(sp, dy=0.0), p["x"], p["y"]) == kde
+        bad.append(("kde_vs_histogram_pixel", {"kde_peak": kde, "histogram_pixel": hist, "expected": intended_pixel(sp, p["x"], p["y"])},
+                    "F14" if f14 else False))
+    return bad
+
+
+# ------------------------------------------------------------------------------------------------ direct Screen.track / screen(beam)
+def beam_state(b):
+    return {k: v.clone() for k, v in b.named_buffers()}
+
+
+def oracle_direct(sp0, parts, mx, my):
+    """screen.track(beam) and screen(beam) called DIRECTLY (not through Segment.track, which skips an inactive screen) for all four
+    (is_active, is_blocking) combinations and both beam types: an inactive screen lets the beam pass unchanged and records
+    nothing, whether blocking or not; an active one records it and stops it exactly when blocking.  Exceptions are observations."""
+    bad = []
+    nx, ny = nb(sp0)
+    for active in (True, False):
+        for blocking in (True, False):
+            sp = dict(sp0, active=active, blocking=blocking, via_segment=False, pretrack=False)
+            for btype in ("particle", "parameter"):
+                for call in ("track", "call"):
+                    tag = dict(is_active=active, is_blocking=blocking, beam_type=btype, call="screen.track(beam)" if call == "track" else "screen(beam)")
+                    try:
+                        scr = mk_screen(sp)
+                        beam = mk_pbeam(parts) if btype == "particle" else mk_parambeam(mx, my, 0.3 * sp["px"], 0.3 * sp["py"], q=1.5, mpx=0.125, mpy=-0.25)
+                        before = beam_state(beam)
+                        out = scr.track(beam) if call == "track" else scr(beam)
+                        after, got = beam_state(beam), beam_state(out)
+                        rb = scr.get_read_beam()
+                        img = scr.reading
+                    except Exception as ex:  # noqa
+                        bad.append(("direct_raises", dict(tag, exception=repr(ex)[:200]), False))
+                        continue
+                    zeroed = "survival_probabilities" if btype == "particle" else "total_charge"
+                    want = dict(before)
+                    if active and blocking:
+                        want[zeroed] = torch.zeros_like(before[zeroed])
+                    diff = [k for k in want if k not in got or not torch.equal(got[k], want[k])] if type(out) is type(beam) else ["<beam type>"]
+                    if diff:
+                        k = diff[0]
+                        clause = "inactive_passthrough" if not active else ("blocking_stops_beam" if blocking else "active_passthrough")
+                        bad.append((clause, dict(tag, differs=diff, expected=want[k].flatten()[:6].tolist() if k in want else None,
+                                                 observed=got[k].flatten()[:6].tolist() if k in got else None), False))
+                    if any(not torch.equal(after[k], before[k]) for k in before):
+                        bad.append(("incoming_modified", tag, False))
+                    if not active and (rb is not None or bool((img != 0).any())):
+                        bad.append(("inactive_records", tag, False))
+                    if active and rb is None:
+                        bad.append(("active_records_nothing", tag, False))
+                    if btype == "particle" and tuple(img.shape) != (ny, nx):
+                        bad.append(("image_shape", dict(tag, shape=tuple(img.shape), expected=(ny, nx)), False))
+    return bad
+
+
 def oracle_bpm(run, parts, ptype):
     """BPM.reading == (mu_x, mu_y) of the beam == exact survival-weighted centroid; beam passes unchanged, active or not."""
     import cheetah
@@ -583,6 +678,33 @@ def main(tier, replay=None):
             new_bad.append(dict(kind="kde", clause="raises", detail=repr(exn)[:300], **inp))
         run.add_case(["kde", sp, batches], True)
         run.count("kde_cases")
+    # KDE with binning > 1: a particle in the upper/right part of a binned pixel (and a few in the lower/left part)
+    for k in range(96 if thorough else 12):
+        g = gen_kde_binned(rng, [2, 4][k % 2], upper=k % 6 != 5)
+        if g is None:
+            continue
+        sp, p1, frac = g
+        inp = dict(screen=sp, particles=[p1], fraction_of_binned_pixel=frac)
+        try:
+            record("kde_binned", inp, oracle_kde_binned(sp, p1))
+        except Exception as exn:  # noqa
+            new_bad.append(dict(kind="kde_binned", clause="raises", detail=repr(exn)[:300], **inp))
+        run.add_case(["kde_binned", sp, p1], True)
+        run.count("kde_binned_b%d" % sp["b"])
+    # direct screen.track(beam) / screen(beam): all (is_active, is_blocking) combinations, both beam types
+    for k in range(60 if thorough else 8):
+        sp = gen_screen(rng, thorough)
+        parts = gen_particles(rng, sp, rng.randrange(1, 6))
+        exs, eys = edges(sp)
+        mx = gen_coord(rng, [exs], float(exs[-1]) * 0.8, sp["px"], [sp["dx"]])
+        my = gen_coord(rng, [eys], float(eys[-1]) * 0.8, sp["py"], [0.0, sp["dy"]])
+        inp = dict(screen=sp, particles=parts, mu_x=mx, mu_y=my)
+        try:
+            record("direct", inp, oracle_direct(sp, parts, mx, my))
+        except Exception as exn:  # noqa
+            new_bad.append(dict(kind="direct", clause="raises", detail=repr(exn)[:300], **inp))
+        run.add_case(["direct", sp, parts, mx, my], True)
+        run.count("direct_track_calls", 16)
     bterms = []
     for k in range(200 if thorough else 30):
         sp = gen_screen(rng, thorough)
@@ -609,7 +731,10 @@ def main(tier, replay=None):
     # ---------------- known findings: replay the stored inputs
     replay_known(run, known)
 
-    run.cov["tested_only"] = ["KDE image: vectorised == per-sample (1e-5 relative), shape, single-particle peak pixel",
+    run.cov["tested_only"] = ["KDE image: vectorised == per-sample (1e-5 relative), shape, single-particle peak pixel (binning 2/4: particle in the "
+                              "upper/right part of a binned pixel; peak == containing pixel == histogram pixel)",
+                              "direct Screen.track / screen(beam) on inactive+blocking screens for ParameterBeam (the model's track_screen covers the "
+                              "ParticleBeam case; Segment.track never calls an inactive screen)",
                               "ParameterBeam image values (bivariate normal density); only shape, arg-max pixel and read beam are modelled",
                               "BPM reading in float64 to 1e-12 (exact centroid in rational arithmetic)",
                               "float64 histogram screens raise (pixel_bin_edges is float32, finding F16 of C12): screens are run in float32"]
@@ -708,6 +833,10 @@ def do_replay(run, path):
         bad = [(c, d) for c, d, t in oracle_kde(run, r["screen"], r["batches"]) if not t]
     elif kind == "kde_peak":
         bad = [(c, d) for c, d, t in oracle_kde_peak(r["screen"], r["particles"][0]) if not t]
+    elif kind == "kde_binned":
+        bad = [(c, d) for c, d, t in oracle_kde_binned(r["screen"], r["particles"][0]) if not t]
+    elif kind == "direct":
+        bad = [(c, d) for c, d, t in oracle_direct(r["screen"], r["particles"], r["mu_x"], r["mu_y"]) if not t]
     elif kind == "bpm":
         items, _ = oracle_bpm(run, r["particles"], r["beam_type"])
         bad = [(c, d) for c, d, t in items]
